@@ -18,7 +18,7 @@ RULE = (
     "inline style declarations must trigger exactly the bundled style rules. "
     "part X (context rules): a probe schema with a high-priority rule restricted by a context "
     "expression and an unrestricted fallback for the same tag; the node produced for every probe "
-    "element is compared with a reference context matcher over the open ancestors. part E (export): "
+    "element is compared with a reference context matcher over the open ancestors. part Z (rule zoo): the list schema extended with rules that use priority, getAttrs declining a match, contentElement, preserveWhitespace on ordinary blocks, ignore, skip, closeParent, consuming:false, style rules with getAttrs and clearMark, fed the same hostile HTML with the triggering elements spliced in - same oracle (returns within budget, valid document). part E (export): "
     "valid generated documents serialise without error; the output re-parsed by lxml has the "
     "document's text and attribute values (injected < > & \" ' never create elements). part R (round "
     "trip): constructed whitespace-normal documents (single spaces between differently marked words, "
@@ -48,7 +48,7 @@ def cases(tier):
 
 
 def floors(tier):
-    return {"imports": 4000, "imports_with_comments": 100, "context_probes": 1000, "style_probes": 300, "exports": 1500, "roundtrips": 1500, "distinct_nontrivial": 150}
+    return {"imports_rule_zoo": 1000, "imports": 4000, "imports_with_comments": 100, "context_probes": 1000, "style_probes": 300, "exports": 1500, "roundtrips": 1500, "distinct_nontrivial": 150}
 
 
 # ------------------------------------------------------------------ HTML generator
@@ -232,6 +232,86 @@ def run_parse_slice(ctx, sch, html, features):
             ctx.violation("parse-slice-open", "parse_slice returned open depths (%d,%d) deeper than its content %s" % (sl.open_start, sl.open_end, str(sl)[:200]), det, {"part": "parse_slice"})
             return
     ctx.cover(["P", sch.id, min(sl.open_start, 3), min(sl.open_end, 3)], nontrivial=True)
+
+
+# ------------------------------------------------------------------ rule zoo
+
+
+_ZOO = []
+ZOO_BLOCK = ["aside", "section", 'div class="aside"', 'div class="close"', 'p class="pre"', 'p class="full"', 'pre class="x"']
+ZOO_INLINE = ['span class="note" data-kind="k"', 'span class="note"', 'span class="hidden"', "font", 'br class="close"', 'b class="both"', "sup", "mark",
+              'mark data-c="red"', 'span style="vertical-align: super"', 'span style="background-color: blue"', 'span style="background-color: none"',
+              'span style="font-style: normal"', 'em style="font-style: normal"']
+
+
+def zoo_schema():
+    """The list schema plus node and mark types whose parse rules use the rule features the
+    bundled schemas do not: priority, getAttrs that declines (returns False), contentElement
+    (callable), preserveWhitespace on ordinary blocks, ignore, skip, closeParent, consuming:
+    False, style rules with getAttrs, clearMark.  Only the generic C19 oracle applies (returns,
+    valid document)."""
+    if _ZOO:
+        return _ZOO[0]
+    from prosemirror.model import Schema
+    from prosemirror.test_builder import test_schema as S0
+
+    def has(cls):
+        return lambda d: None if cls in (d.get("class") or "").split() else False
+
+    nodes = dict(S0.spec["nodes"])
+    para = dict(nodes["paragraph"])
+    para["parseDOM"] = [
+        {"tag": "p", "getAttrs": has("pre"), "preserveWhitespace": True, "priority": 60},
+        {"tag": "p", "getAttrs": has("full"), "preserveWhitespace": "full", "priority": 60},
+        {"tag": "span", "getAttrs": has("hidden"), "ignore": True, "priority": 60},
+        {"tag": "font", "skip": True},
+        {"tag": "br", "getAttrs": has("close"), "close_parent": True, "priority": 60},
+        {"tag": "div", "getAttrs": has("close"), "close_parent": True, "priority": 60},
+        *para.get("parseDOM", []),
+    ]
+    nodes["paragraph"] = para
+    cb = dict(nodes["code_block"])
+    cb["parseDOM"] = [{"tag": "pre", "getAttrs": has("x"), "preserveWhitespace": True, "priority": 55}, *cb.get("parseDOM", [])]
+    nodes["code_block"] = cb
+
+    def first_div(d):
+        kids = [c for c in d if isinstance(c.tag, str) and c.tag.lower() == "div"]
+        return kids[0] if kids else d
+
+    nodes["aside"] = {"content": "block+", "group": "block", "defining": True, "toDOM": lambda n: ["aside", 0],
+                      "parseDOM": [{"tag": "aside"}, {"tag": "div", "getAttrs": has("aside"), "priority": 70}, {"tag": "section", "contentElement": first_div}]}
+    nodes["note"] = {"inline": True, "group": "inline", "attrs": {"kind": {"default": "x"}}, "toDOM": lambda n: ["span", {"class": "note", "data-kind": n.attrs["kind"]}],
+                     "parseDOM": [{"tag": "span", "priority": 60, "getAttrs": lambda d: ({"kind": d.get("data-kind")} if "note" in (d.get("class") or "") and d.get("data-kind") else False)}]}
+    marks = dict(S0.spec["marks"])
+    em = dict(marks["em"])
+    em["parseDOM"] = [{"tag": "b", "getAttrs": has("both"), "consuming": False, "priority": 60}, *em.get("parseDOM", []),
+                      {"style": "font-style=normal", "clear_mark": lambda m: m.type.name == "em"}]
+    marks["em"] = em
+    marks["sup"] = {"parseDOM": [{"tag": "sup"}, {"style": "vertical-align=super"}], "toDOM": lambda m, i: ["sup", 0], "excludes": "sup code"}
+    marks["hl"] = {"attrs": {"color": {"default": "y"}}, "toDOM": lambda m, i: ["mark", {"data-c": m.attrs["color"]}, 0],
+                   "parseDOM": [{"tag": "mark", "getAttrs": lambda d: {"color": d.get("data-c") or "y"}},
+                                {"style": "background-color", "getAttrs": lambda v: ({"color": v} if v != "none" else False)}]}
+    S = Schema({"nodes": nodes, "marks": marks})
+    _ZOO.append(schemas.Sch("rule-zoo", S, "other"))
+    return _ZOO[0]
+
+
+def gen_zoo_html(rnd, features):
+    """gen_html output with zoo elements spliced in at random element boundaries."""
+    html = gen_html(rnd, 0, features, comments=rnd.random() < 0.2, inline=INLINE + ["sup", "mark"])
+    cuts = [m.start() for m in re.finditer(r"<(?!/|!)", html)] + [len(html)]
+    for _ in range(rnd.randint(1, 5)):
+        at = rnd.choice(cuts)
+        el = rnd.choice(ZOO_BLOCK if rnd.random() < 0.4 else ZOO_INLINE)
+        tag = el.split()[0]
+        features.add("zoo:" + el.replace('"', "")[:22])
+        inner = "" if tag == "br" else gen_html(rnd, 3, set(), False, INLINE + ["sup", "mark"])
+        if tag == "section" and rnd.random() < 0.7:
+            inner = "<h2>t</h2><div>%s</div><p>after</p>" % inner
+        piece = "<%s>" % el if tag == "br" else "<%s>%s</%s>" % (el, inner, tag)
+        html = html[:at] + piece + html[at:]
+        cuts = [m.start() for m in re.finditer(r"<(?!/|!)", html)] + [len(html)]
+    return html
 
 
 # ------------------------------------------------------------------ context probe
@@ -653,6 +733,18 @@ def case(ctx, rnd, i):
         for _ in range(4):
             check_context(ctx, rnd)
         check_styles(ctx, sch, rnd)
+        zoo = zoo_schema()
+        for _ in range(4):
+            feats = set()
+            html = gen_zoo_html(rnd, feats)
+            ctx.count("imports_rule_zoo")
+            ctx.ev()
+            doc = run_import(ctx, zoo, html, "import-zoo", feats)
+            if doc is not None:
+                zf = sorted(f for f in feats if f.startswith("zoo:"))
+                ctx.cover(["Z", zf[:2], doc.child_count > 1], nontrivial=True)
+                if rnd.random() < 0.3:
+                    run_parse_slice(ctx, zoo, html, feats)
     elif k in (4, 5):
         for _ in range(4):
             check_export(ctx, sch, rnd)
